@@ -12,11 +12,13 @@ package pebbledb
 // and copyBytes.
 
 //@ func copyBytes
+//@   vars in out
 //@   trusted
 //@   pure
 //@   ensures same: result == in
 
 //@ func (*pebbleIterator).Seek
+//@   vars pit id
 //@   property C10
 //@   option prelude=kv,kvlib
 //@   modifies KV.it H.kvi_pebbledb.pebbleIterator.
@@ -26,6 +28,7 @@ package pebbledb
 //@   ensures dir: pit.forward
 
 //@ func (*pebbleIterator).SeekReverse
+//@   vars pit id ok
 //@   property C10
 //@   option prelude=kv,kvlib
 //@   modifies KV.it H.kvi_pebbledb.pebbleIterator.
@@ -35,6 +38,7 @@ package pebbledb
 //@   ensures dir: !pit.forward
 
 //@ func (*pebbleIterator).Next
+//@   vars pit
 //@   property C10
 //@   option prelude=kv,kvlib
 //@   modifies KV.it H.kvi_pebbledb.pebbleIterator.
@@ -47,6 +51,7 @@ package pebbledb
 //@   ensures rpos: !pit.forward && itvalid() ==> pit.key == itpos() && kvhas(itpos()) && blt(itpos(), k0) && (forall j:Str :: kvhas(j) && blt(j, k0) ==> ble(j, itpos()))
 
 //@ func (*pebbleIterator).Valid
+//@   vars pit
 //@   property C10
 //@   option prelude=kv,kvlib
 //@   pure
